@@ -35,9 +35,9 @@ for p in props:
 man = {
     "version": 1,
     "setup_cmd": "python3 setup.py",
-    "hooks": {"guard": "LIBSNDFILE_VERIF", "enable": "three guarded hooks, all off in a normal build: -DLIBSNDFILE_VERIF_ALAC_BYTE_BUFFER_SIZE=<n> (src/alac.c: smaller ALAC packet buffer, the 1 MB block does not fit the solver), -DLIBSNDFILE_VERIF_BUFFER_LEN=<n> (src/common.h: overrides SF_BUFFER_LEN so the codec staging loops have a small stated chunk size) and -DLIBSNDFILE_VERIF_PROMOTE_VARARGS=1 (src/common.h BHW1/BHW2: spell out the default argument promotion that CBMC 6.11 does not apply to variadic calls; value-preserving). lib/vf.py passes them to goto-cc together with -DLIBSNDFILE_VERIF=1; harnesses otherwise #include the real src/*.c files to reach static functions",
+    "hooks": {"guard": "LIBSNDFILE_VERIF", "enable": "four guarded hooks, all off in a normal build: -DLIBSNDFILE_VERIF_MAX_HEADER=<n> (src/common.c: lower ceiling for the header cache, so that the 'growth refused' state is reachable inside the bound), -DLIBSNDFILE_VERIF_ALAC_BYTE_BUFFER_SIZE=<n> (src/alac.c: smaller ALAC packet buffer, the 1 MB block does not fit the solver), -DLIBSNDFILE_VERIF_BUFFER_LEN=<n> (src/common.h: overrides SF_BUFFER_LEN so the codec staging loops have a small stated chunk size) and -DLIBSNDFILE_VERIF_PROMOTE_VARARGS=1 (src/common.h BHW1/BHW2: spell out the default argument promotion that CBMC 6.11 does not apply to variadic calls; value-preserving). lib/vf.py passes them to goto-cc together with -DLIBSNDFILE_VERIF=1; harnesses otherwise #include the real src/*.c files to reach static functions",
               "baseline_off_cmd": "cmake -G Ninja -S /repo -B /repo/_build > /dev/null && cmake --build /repo/_build -j16 > /dev/null && ctest --test-dir /repo/_build -j8 --timeout 900",
-              "source_commits": ["3619295", "9053d3b", "5c8ebb0"], "add_only": True},
+              "source_commits": ["3619295", "9053d3b", "5c8ebb0", "2417f5c"], "add_only": True},
     "engines": [{"name": "cbmc", "path": "/verif/run_check.py", "serves_properties": [c["property_id"] for c in checks],
                  "kind_free_text": "CBMC 6.11 bounded model checker over goto-cc builds of /repo/src (regenerated on every run); SAT back ends minisat/cadical/kissat; native ASan/UBSan replay of counterexamples"}],
     "checks": checks,
